@@ -128,10 +128,25 @@ func (vc *VC) sentinel(obj *types.Var) (Term, bool) {
 	if !strings.HasPrefix(obj.Name(), "Err") && !strings.HasPrefix(obj.Name(), "err") {
 		return Term{}, false
 	}
-	if _, ok := obj.Type().Underlying().(*types.Interface); !ok {
+	_, isIface := obj.Type().Underlying().(*types.Interface)
+	_, isPtr := obj.Type().Underlying().(*types.Pointer)
+	if !isIface && !isPtr {
 		return Term{}, false
 	}
 	name := "sentinel!" + sanitize(obj.Pkg().Path()+"."+obj.Name())
+	if isPtr {
+		if !vc.uf[name] {
+			vc.DeclareFun(name, nil, SRef)
+			vc.axioms = append(vc.axioms, fmt.Sprintf("(< (rid %s) 0)", name))
+			vc.axioms = append(vc.axioms, fmt.Sprintf("(= (roff %s) 0)", name))
+			for _, o := range vc.sentinelsP {
+				vc.axioms = append(vc.axioms, fmt.Sprintf("(distinct %s %s)", name, o))
+			}
+			vc.sentinelsP = append(vc.sentinelsP, name)
+			vc.assume("package-level error sentinels (Err*) are immutable, non-nil and pairwise distinct")
+		}
+		return Term{name, SRef}, true
+	}
 	if !vc.uf[name] {
 		vc.DeclareFun(name, nil, SIface)
 		vc.axioms = append(vc.axioms, fmt.Sprintf("(not (= (itag %s) 0))", name))
@@ -545,6 +560,9 @@ func (fr *Frame) instr(st *State, b *ssa.BasicBlock, in ssa.Instruction) (bool, 
 			ln = SLen(a)
 			r = ElemAddr(SBase(a), idx, vc.tt.Slots(elem))
 		case *types.Pointer:
+			if _, opq := vc.tt.isOpaque(u.Elem()); opq {
+				return false, havocValue(x, "index into a value of opaque type")
+			}
 			arr := u.Elem().Underlying().(*types.Array)
 			elem = arr.Elem()
 			ln = IntLit(arr.Len())
@@ -567,6 +585,9 @@ func (fr *Frame) instr(st *State, b *ssa.BasicBlock, in ssa.Instruction) (bool, 
 			return false, fr.unsupportedErr(in, err)
 		}
 		idx := vc.toIndex(i, x.Index.Type())
+		if _, opq := vc.tt.isOpaque(x.X.Type()); opq {
+			return false, havocValue(x, "index into a value of opaque type")
+		}
 		switch u := x.X.Type().Underlying().(type) {
 		case *types.Array:
 			fr.safe(st, "index", And(Le(IntLit(0), idx), Lt(idx, IntLit(u.Len()))), in, "index out of range")
